@@ -81,7 +81,8 @@ pub fn pick_addr(plan: &Plan, rng: &mut Rng, peer: usize, v6: bool, offscope: bo
                 a.dmac = BROADCAST;
                 a.note = "broadcast";
             }
-            1 if v6 => {
+            1 => {
+                // the IPv6 all-nodes group MAC is authorised whatever the frame carries
                 a.dmac = [0x33, 0x33, 0, 0, 0, 1];
                 a.note = "all-nodes";
             }
@@ -128,7 +129,24 @@ pub fn pick_addr(plan: &Plan, rng: &mut Rng, peer: usize, v6: bool, offscope: bo
         4 | 5 => {
             // right MAC, address the node does not handle
             a.dst = if v6 {
-                IpAddr::V6(*rng.pick(&plan.foreign6))
+                if rng.chance(1, 3) && plan.cfg.self_ips.is_some() {
+                    // a handled IPv4 address embedded in an IPv6 address (IPv4-mapped, IPv4-compatible,
+                    // NAT64, 6to4): not on the list unless it is listed in that very form
+                    let o = rng.pick(&plan.targets4).octets();
+                    let (w6, w7) = (((o[0] as u16) << 8) | o[1] as u16, ((o[2] as u16) << 8) | o[3] as u16);
+                    let cand = match rng.below(4) {
+                        0 | 1 => Ipv6Addr::new(0, 0, 0, 0, 0, 0xffff, w6, w7),
+                        2 => Ipv6Addr::new(0, 0, 0, 0, 0, 0, w6, w7),
+                        _ => Ipv6Addr::new(0x64, 0xff9b, 0, 0, 0, 0, w6, w7),
+                    };
+                    if plan.targets6.contains(&cand) {
+                        IpAddr::V6(*rng.pick(&plan.foreign6))
+                    } else {
+                        IpAddr::V6(cand)
+                    }
+                } else {
+                    IpAddr::V6(*rng.pick(&plan.foreign6))
+                }
             } else {
                 IpAddr::V4(*rng.pick(&plan.foreign4))
             };
